@@ -1375,7 +1375,17 @@ def W11_fitter_uses_list(rep, flow: Flow):
             from_helper = any(isinstance(sv, ast.Call) and not (isinstance(sv.func, ast.Name) and sv.func.id in ("dict", "list", "tuple")) and "get_counts" not in ast.unparse(sv)
                               and not any(isinstance(x, ast.Attribute) and x.attr in ("qubits", "circuit") for x in ast.walk(sv)) for sv in csrcs) and \
                 not any(isinstance(sv, (ast.Name, ast.Attribute)) for sv in csrcs)
-            if not from_param and not from_helper and not any(isinstance(x, ast.Call) and isinstance(x.func, ast.Attribute) and x.func.attr == "get_counts" for sv in csrcs for x in ast.walk(sv)):
+            # `self.<name>` where <name> is a property (or method) of the class: the value is produced there
+            from_property = False
+            for sv in csrcs:
+                if isinstance(sv, ast.Attribute) and isinstance(sv.value, ast.Name) and sv.value.id == "self" and f.cls is not None:
+                    pg = flow.prog.find_property(f.cls, sv.attr)
+                    if pg is not None:
+                        if any(isinstance(x, ast.Call) and isinstance(x.func, ast.Attribute) and x.func.attr == "get_counts" for x in ast.walk(pg.node)):
+                            from_property = True
+                        else:
+                            raise AnalysisError(f"{pyfacts.where(f, c)}: the counts parser is given the property `self.{sv.attr}`, whose getter does not call get_counts() itself: where the counts come from is not decidable here")
+            if not from_param and not from_helper and not from_property and not any(isinstance(x, ast.Call) and isinstance(x.func, ast.Attribute) and x.func.attr == "get_counts" for sv in csrcs for x in ast.walk(sv)):
                 rep.finding("W11", f"{A_FITTER}:parser-counts", f"{pyfacts.where(f, c)}: the counts parser is given `{ast.unparse(cnt)}`, which does not come from get_counts(): the fitter does not evaluate the measured counts [{pyfacts.norm_stmt(c)}]")
                 continue
         if okk:
